@@ -13,7 +13,7 @@ from mc.props.C01 import Probe
 
 ID = "C07"
 RULE = ("product explorer: (holder of an explicit array) x (all N! mode orders | every ordered factorisation of the "
-        "cell count into <= 4 factors | every sorted proper subset of modes x every factorisation of its size | "
+        "cell count into <= 4 factors | every ordered selection of modes as old_modes x every factorisation of its size | "
         "squeeze), plus the composites permute;permute^-1 and reshape;reshape^-1.  Cells hold distinct signed integers. "
         "Non-trivial: >= 2 cells, >= 1 non-zero and a non-identity map.")
 ASSUMPTIONS = ["reference index formulas in mc/refmodel.py (loops)", "exact integer values"]
@@ -146,10 +146,14 @@ def _run_maps(case, ctx):
             combos = [(tuple(case["modes"]), tuple(case["target"]))]
         else:
             combos = []
-            for m in range(1, N):
-                for modes in itertools.combinations(range(N), m):
+            # every ordered selection of modes (the listed order of old_modes defines the linear index of the block);
+            # proper subsets in every order, and the full set in every non-identity order
+            for m in range(1, N + 1):
+                for modes in itertools.permutations(range(N), m):
+                    if m == N and list(modes) == sorted(modes):
+                        continue
                     sz = prod(shape[d] for d in modes)
-                    for tgt in space.factorizations(sz, 3):
+                    for tgt in space.factorizations(sz, 3 if m < N else 2):
                         combos.append((modes, tgt))
         for modes, tgt in combos:
             sub = dict(case, sub="reshape_subset", modes=list(modes), target=list(tgt))
